@@ -40,25 +40,26 @@ struct case_cfg {
 	int filter;
 	long long content_limit, multipart_limit;
 	long long mem_limit;
+	int bufsize;
 	std::string uploads;
 	std::string events;        // filter event trace
 	std::string raw_seen;      // bytes handed to raw filter
 	bool main_called_early;
-	case_cfg():filter(0),content_limit(0),multipart_limit(0),mem_limit(0),main_called_early(false){}
+	case_cfg():filter(0),content_limit(0),multipart_limit(0),mem_limit(0),bufsize(65536),main_called_early(false){}
 };
 static case_cfg *g_case=0;
 
 struct raw_flt : public cppcms::http::raw_content_filter {
-	void on_data_chunk(void const *p,size_t n) { g_case->raw_seen.append(static_cast<char const *>(p),n); g_case->events+="c"+std::to_string(n)+" "; }
-	void on_end_of_content() { g_case->events+="end "; }
-	void on_error() { g_case->events+="err "; }
+	void on_data_chunk(void const *p,size_t n) { g_case->raw_seen.append(static_cast<char const *>(p),n); g_case->events+="c"+std::to_string(n)+","; }
+	void on_end_of_content() { g_case->events+="end,"; }
+	void on_error() { g_case->events+="err,"; }
 };
 struct mp_flt : public cppcms::http::multipart_filter {
-	void on_new_file(cppcms::http::file &f) { g_case->events+="new:"+vh::hex(f.name())+":"+std::to_string(f.size())+" "; }
-	void on_upload_progress(cppcms::http::file &f) { g_case->events+="prog:"+std::to_string(f.size())+" "; }
-	void on_data_ready(cppcms::http::file &f) { g_case->events+="ready:"+std::to_string(f.size())+" "; }
-	void on_end_of_content() { g_case->events+="end "; }
-	void on_error() { g_case->events+="err "; }
+	void on_new_file(cppcms::http::file &f) { g_case->events+="new:"+vh::hex(f.name())+":"+std::to_string(f.size())+","; }
+	void on_upload_progress(cppcms::http::file &f) { g_case->events+="prog:"+std::to_string(f.size())+","; }
+	void on_data_ready(cppcms::http::file &f) { g_case->events+="ready:"+std::to_string(f.size())+","; }
+	void on_end_of_content() { g_case->events+="end,"; }
+	void on_error() { g_case->events+="err,"; }
 };
 
 class flt_app : public cppcms::application {
@@ -72,6 +73,7 @@ public:
 			request().limits().multipart_form_data_limit(g_case->multipart_limit);
 			request().limits().file_in_memory_limit(g_case->mem_limit);
 			request().limits().uploads_path(g_case->uploads);
+			request().setbuf(g_case->bufsize);
 			if(g_case->filter==1) request().reset_content_filter(new raw_flt());
 			else if(g_case->filter==2) request().reset_content_filter(new mp_flt());
 		}
@@ -91,7 +93,7 @@ public:
 		srv_(&srv),
 		chunks_(chunks),
 		next_(0),off_(0),
-		starved(false),reads(0),bad_room(false)
+		starved(false),reads(0),bad_room(false),pending(false),pend_p(0),pend_room(0)
 	{
 		for(std::map<std::string,std::string>::const_iterator p=env.begin();p!=env.end();++p)
 			env_.add(pool_.add(p->first),pool_.add(p->second));
@@ -135,20 +137,34 @@ protected:
 	virtual void async_read_eof(callback const &) {}
 	virtual void async_read_some(void *p,size_t room,io_handler const &h)
 	{
-		// hand out the rest of the current chunk, at most `room` bytes (a read() never returns more)
-		while(next_<chunks_.size() && off_==chunks_[next_].size()) { next_++; off_=0; }
-		if(next_>=chunks_.size()) { starved=true; return; }   // peer sends nothing more: the read never completes
-		if(room==0 || p==0) { bad_room=true; return; }
-		size_t n=chunks_[next_].size()-off_;
-		if(n>room) n=room;
-		memcpy(p,chunks_[next_].data()+off_,n);
-		off_+=n;
-		reads++;
-		sizes+=std::to_string(n)+",";
-		// keep a copy: the handler may release the connection
-		io_handler hc=h;
-		hc(booster::system::error_code(),n);
+		// remember the request; pump() completes it (iteratively: a synchronous completion here would
+		// nest one on_some_content_read per read on the stack)
+		pend_p=p; pend_room=room; pend_h=h; pending=true;
 	}
+public:
+	bool pending;
+	// complete pending reads until the request stops reading
+	void pump()
+	{
+		while(pending) {
+			pending=false;
+			// hand out the rest of the current chunk, at most `room` bytes (a read() never returns more)
+			while(next_<chunks_.size() && off_==chunks_[next_].size()) { next_++; off_=0; }
+			if(next_>=chunks_.size()) { starved=true; return; }   // peer sends nothing more: the read never completes
+			if(pend_room==0 || pend_p==0) { bad_room=true; return; }
+			size_t n=chunks_[next_].size()-off_;
+			if(n>pend_room) n=pend_room;
+			memcpy(pend_p,chunks_[next_].data()+off_,n);
+			off_+=n;
+			reads++;
+			sizes+=std::to_string(n)+",";
+			io_handler hc=pend_h;
+			pend_h=io_handler();
+			hc(booster::system::error_code(),n);
+		}
+	}
+private:
+	void *pend_p; size_t pend_room; io_handler pend_h;
 private:
 	booster::aio::stream_socket sock_;
 	cppcms::service *srv_;
@@ -206,36 +222,46 @@ static int count_dir(std::string const &dir)
 // the harness reads two more optional leading words in the content type slot: see run_request
 } // c12
 
-// w: rq ct cl climit mlimit mem disk chunks...   ; extras passed through environment words "rqf"/"rqq"
-static std::string c12_request_core(std::string const &ct,std::string const &method,std::string const &query,
-	long long cl,long long climit,long long mlimit,long long mem,bool disk_ok,int filter,
-	std::vector<std::string> const &chunks,std::string const &tmp_ok,std::string const &tmp_bad,bool want_get,bool want_trace)
+static std::string c12_strip(std::string s) { if(!s.empty() && s[s.size()-1]==',') s.erase(s.size()-1); return s.empty()?std::string("-"):s; }
+
+// rq <flt> <ct> <cl> <climit> <mlimit> <mem> <disk> <bufsize> <query> <chunk>*
+// flt 0/1/2: application "/flt" (asynchronous|content_filter) installs the limits, the buffer size and
+// no / a raw / a multipart filter before the body is read; flt 3: application "/plain" (synchronous,
+// service defaults, arguments climit..bufsize ignored).
+static std::string c12_run_request(std::vector<std::string> const &w,std::string const &tmp_ok,std::string const &tmp_bad)
 {
 	using namespace c12;
+	if(w.size()<10) return "bad-op";
+	int flt=atoi(w[1].c_str());
+	std::string ct,query;
+	if(!vh::unhex(w[2],ct) || !vh::unhex(w[9],query)) return "bad-op";
+	long long cl=atoll(w[3].c_str());
+	std::vector<std::string> chunks;
+	for(size_t i=10;i<w.size();i++) { std::string c; if(!vh::unhex(w[i],c)) return "bad-op"; chunks.push_back(c); }
 	cppcms::service *srv=the_service();
 	case_cfg cc;
-	cc.filter=filter; cc.content_limit=climit; cc.multipart_limit=mlimit; cc.mem_limit=mem;
-	cc.uploads=disk_ok?tmp_ok:tmp_bad;
+	cc.filter=flt; cc.content_limit=atoll(w[4].c_str()); cc.multipart_limit=atoll(w[5].c_str()); cc.mem_limit=atoll(w[6].c_str());
+	cc.uploads=(w[7]=="1")?tmp_ok:tmp_bad;
+	cc.bufsize=atoi(w[8].c_str());
 	g_case=&cc;
 	std::map<std::string,std::string> env;
 	env["HTTP_HOST"]="localhost";
-	env["SCRIPT_NAME"]="/flt";
+	env["SCRIPT_NAME"]=(flt==3)?"/plain":"/flt";
 	env["PATH_INFO"]="/x";
-	env["REQUEST_METHOD"]=method;
+	env["REQUEST_METHOD"]=cl>0?"POST":"GET";
 	env["QUERY_STRING"]=query;
 	env["CONTENT_TYPE"]=ct;
 	env["CONTENT_LENGTH"]=std::to_string(cl);
 	std::ostringstream out;
-	int left_during=0;
 	{
 		booster::shared_ptr<conn> c(new conn(*srv,env,chunks));
 		booster::shared_ptr<cppcms::http::context> ctx(new cppcms::http::context(c));
 		int state=0;
 		c->async_prepare_request(ctx.get(),completion(&state));
+		c->pump();
+		bool delivered = !ctx->request().post().empty() || !ctx->request().files().empty();
 		if(state==1) {
-			out<<"status 200";
-			if(want_get) out<<" get "<<pairs_str(ctx->request().get());
-			out<<" post "<<pairs_str(ctx->request().post())<<" files ";
+			out<<"status 200 post "<<pairs_str(ctx->request().post())<<" files ";
 			cppcms::http::request::files_type fs=ctx->request().files();
 			if(fs.empty()) out<<"-";
 			for(size_t i=0;i<fs.size();i++) { if(i) out<<';'; out<<c12_file_str(*fs[i]); }
@@ -243,36 +269,23 @@ static std::string c12_request_core(std::string const &ct,std::string const &met
 		else if(state==2) {
 			size_t p=c->headers.find("Status: ");
 			out<<"status "<<(p==std::string::npos?std::string("?"):c->headers.substr(p+8,3));
-			if(!ctx->request().post().empty() || !ctx->request().files().empty()) out<<" DELIVERED-ON-ERROR";
+			if(delivered) out<<" DELIVERED-ON-ERROR";
 		}
 		else {
 			out<<(c->starved?"waiting":"stuck");
-			if(c->starved && (!ctx->request().post().empty() || !ctx->request().files().empty())) out<<" DELIVERED-EARLY";
+			if(delivered) out<<" DELIVERED-EARLY";
 		}
 		if(c->bad_room) out<<" BAD-ROOM";
-		if(want_trace) {
-			out<<" | sizes "<<(c->sizes.empty()?"-":c->sizes)<<" raw "<<vh::hex(cc.raw_seen)<<" ev "<<(cc.events.empty()?"-":cc.events);
-		}
-		left_during=count_dir(tmp_ok);
+		if(flt!=3 && cl>0 && !cc.main_called_early) out<<" NO-EARLY-MAIN";
+		out<<" get "<<pairs_str(ctx->request().get());
+		out<<" | sizes "<<c12_strip(c->sizes)<<" raw "<<vh::hex(cc.raw_seen)<<" ev "<<c12_strip(cc.events);
 	}
 	int left=count_dir(tmp_ok);
 	if(left) out<<" TEMP-FILES-LEFT="<<left;
-	(void)left_during;
 	g_case=0;
 	return out.str();
 }
 
-static std::string c12_run_request(std::vector<std::string> const &w,std::string const &tmp_ok,std::string const &tmp_bad)
-{
-	std::string ct;
-	if(!vh::unhex(w[1],ct)) return "bad-op";
-	std::vector<std::string> chunks;
-	for(size_t i=7;i<w.size();i++) { std::string c; if(!vh::unhex(w[i],c)) return "bad-op"; chunks.push_back(c); }
-	return c12_request_core(ct,"POST","",atoll(w[2].c_str()),atoll(w[3].c_str()),atoll(w[4].c_str()),atoll(w[5].c_str()),w[6]=="1",0,
-		chunks,tmp_ok,tmp_bad,false,false);
-}
-
-// form <bytes>: the same NUL-free string as query string of a GET: "<ok> <pairs>" with ok = result not cleared
 static std::string c12_run_form(std::vector<std::string> const &w)
 {
 	return "unimplemented";
